@@ -81,13 +81,14 @@ CHECK_DEADLOCK FALSE
 }
 
 var reL = regexp.MustCompile(`(?m)^/\\ l = (\d+)`)
+var reLJSON = regexp.MustCompile(`"l":\s*(\d+)`)
 
 // validate asks TLC whether the recording is a behaviour of GluonLocks (switches of the pinned code).
 func validate(t *translated, timeout time.Duration, skip map[string]bool) traceVerdict {
 	var hw, ln int64 = -1, -1
 	res, err := tlc.Run(tlc.Options{
 		SpecDir: filepath.Join(ev.Root(), "spec"), Module: "GluonLocksTrace", CfgText: traceCfg(t, skip),
-		Workers: 1, Deque: true, Timeout: timeout, KeepOutput: true, HeapGB: 4,
+		Workers: 1, Deque: true, Timeout: timeout, KeepOutput: true, HeapGB: 4, DumpTrace: "ce.json",
 		ExtraFiles: map[string][]byte{"trace.ndjson": t.ndjson()},
 		OnJSON: func(raw []byte) {
 			var x struct {
@@ -108,7 +109,11 @@ func validate(t *translated, timeout time.Duration, skip map[string]bool) traceV
 		v.Problem = "TLC timed out on the trace"
 	case res.ViolationKind == "invariant":
 		v.Invariant = res.Violated
-		if m := reL.FindAllStringSubmatch(res.Output, -1); len(m) > 0 {
+		// the violating state is the last one of the dumped counterexample; l is one past the last consumed event
+		if m := reLJSON.FindAllSubmatch(res.TraceJSON, -1); len(m) > 0 {
+			n, _ := strconv.Atoi(string(m[len(m)-1][1]))
+			v.At = n - 1
+		} else if m := reL.FindAllStringSubmatch(res.Output, -1); len(m) > 0 {
 			n, _ := strconv.Atoi(m[len(m)-1][1])
 			v.At = n - 1
 		}
